@@ -244,6 +244,26 @@ def c07(R):
             if not close(np.asarray(s.value_history)[0], v0): R.fail("c07.history_slot0_is_initial_values", "ring buffer slot 0 does not hold the initial values after construction", inp, np.asarray(s.value_history)[0], v0)
             st = s.solve(40); it, V, ex = reference_run("pvi", ns, r, p, g, eps, v0, 40, P)
             if int(st.info.iteration) != it: R.fail("c07.stop_at_first_full_period", "stop decision at n == period differs from the documented measure (V_n - V_(n-period) with V_0 the initial values)", inp, int(st.info.iteration), it)
+    # the stop rule is a property of the iterates, not of how the run was driven: continued by a second solve() call, and restored from a checkpoint
+    # taken fewer than `period` sweeps before the documented stopping iteration
+    import tempfile, shutil, os
+    from mdpax.problems import Forest
+    base = tempfile.mkdtemp(prefix="c07_", dir=os.environ.get("VERIF_SCRATCH"))
+    try:
+        for P, g in [(4, 0.95), (3, 1.0)]:
+            mk = lambda **kw: PVI(Forest(S=12, r1=40.0, p=0.05), period=P, gamma=g, epsilon=1e-3, verbose=0, clear_value_history_on_convergence=False, **kw)
+            ref = mk(); nstar = int(ref.solve(400).info.iteration); Vstar = np.asarray(ref.values)
+            for back in range(1, P + 1):
+                k = nstar - back
+                if k < 1: continue
+                inp = dict(problem="Forest(S=12,r1=40,p=0.05)", period=P, gamma=g, epsilon=1e-3, documented_stop=nstar, continued_from=k); R.case(("continued", P, g, back), inp)
+                s2 = mk(); s2.solve(k); st2 = s2.solve(400)
+                if int(st2.info.iteration) != nstar or not close(st2.values, Vstar, 1e-9): R.fail("c07.stop_rule_second_call", "solve(k); solve() stops at another iteration than a single solve()", inp, int(st2.info.iteration), nstar)
+                d = os.path.join(base, f"p{P}_{back}"); s3 = mk(checkpoint_dir=d, checkpoint_frequency=1, max_checkpoints=2, enable_async_checkpointing=False); s3.solve(k)
+                r3 = PVI.restore(d, new_checkpoint_dir=d + "_r"); st3 = r3.solve(400)
+                if int(st3.info.iteration) != nstar or not close(st3.values, Vstar, 1e-9): R.fail("c07.stop_rule_after_restore", "a solver restored at iteration k and continued stops at another iteration than the documented first n >= period with the measure below epsilon", inp, int(st3.info.iteration), nstar)
+    finally:
+        shutil.rmtree(base, ignore_errors=True)
     # periodic chain with period 2 (plain VI oscillates): deterministic cycle of length 2 with different rewards
     ns = np.array([[[1]], [[0]]]); r = np.array([[[1.0]], [[3.0]]]); p = np.ones((2, 1, 1))
     st = PVI(Tab(ns, r, p), period=2, gamma=1.0, epsilon=1e-3, verbose=0, clear_value_history_on_convergence=False).solve(50); R.case(("cycle2",), {"mdp": "2-cycle rewards 1,3"})
